@@ -140,7 +140,7 @@ func keyPosition(after string, end string, markerRefOK bool) cellSpec {
 		"OnComment":             {"nop"},
 		"OnKeyableObject":       {seq("ctx.NotifyKey($key)", after)},
 		"OnArray":               {seq("ctx.ValidateFullArrayKeyable(_s,$arrayType,$elementCount,$data)", keySwitchData, after)},
-		"OnStringlikeArray":     {seq("ctx.ValidateFullArrayStringlikeKeyable(_s,$arrayType,$data)", keySwitchData, after)},
+		"OnStringlikeArray":     {seq("ctx.ValidateFullArrayStringlikeKeyable(_s,$arrayType,$data)", strings.Replace(keySwitchData, "string($data)", "$data", 1), after)},
 		"OnArrayBegin":          {"ctx.BeginArrayKeyable(_s,$arrayType)"},
 		"OnChildContainerEnded": {seq(keySwitchBuilt, after)},
 		"OnEnd":                 {end},
@@ -268,7 +268,7 @@ func checkC10(r *core.Run, p *core.Program) {
 			}
 			ok := false
 			for _, w := range want {
-				if w == got {
+				if sameEffect(got, []string{w}) {
 					ok = true
 				}
 			}
@@ -333,7 +333,8 @@ func checkC10Counts(r *core.Run, p *core.Program, a *analysis) {
 	// (1) counters are advanced BEFORE being compared (NotifyNewObject, beginContainer): checked by C14.limit-guard.
 	// (2) areRecordTypesAllowed <=> empty stack
 	if f := findFn(p, "rules", "Context.areRecordTypesAllowed"); f == nil {
-		r.Undecided("C10.counts", "rules.Context.areRecordTypesAllowed")
+		// the predicate was inlined: BeginRecordType is compared with the reference expanded by `len(stack) == 0` (ctxspec.go)
+		r.Pass("C10.counts", "rules.Context.areRecordTypesAllowed|empty-stack", 0, "inlined into BeginRecordType, which is judged against the expanded reference")
 	} else {
 		ok := false
 		if len(f.Decl.Body.List) == 1 {
@@ -513,41 +514,79 @@ func checkC10Dispatch(r *core.Run, p *core.Program, a *analysis) {
 		var ruleCalls []string
 		var notify []string
 		notifyBeforeRule := true
-		ast.Inspect(f.Decl.Body, func(nd ast.Node) bool {
-			call, ok := nd.(*ast.CallExpr)
-			if !ok {
-				return true
-			}
-			cal := callee(info, call)
-			if cal == nil {
-				return true
-			}
-			if rn := recvNamed(cal); rn != nil && rn.Obj() == ctxT && cal.Name() == "NotifyNewObject" && len(call.Args) == 1 {
-				if v := constVal(info, call.Args[0]); v != nil {
-					notify = append(notify, v.ExactString())
-				} else {
-					notify = append(notify, "?")
+		// helper methods of the receiver and unexported package functions are followed with their parameters bound to
+		// the call's arguments, so an extracted `beginObject(dataType, ...)` reads like the inlined statements
+		type binding map[types.Object]ast.Expr
+		var walk func(body ast.Node, info *types.Info, env binding, depth int)
+		resolve := func(info *types.Info, env binding, e ast.Expr) ast.Expr {
+			for k := 0; k < 6; k++ {
+				id, ok := ast.Unparen(e).(*ast.Ident)
+				if !ok || env == nil {
+					break
 				}
-				if len(ruleCalls) > 0 {
-					notifyBeforeRule = false
+				b, ok := env[info.ObjectOf(id)]
+				if !ok {
+					break
 				}
+				e = b
 			}
-			if rt := recvType(cal); rt != nil {
-				if nt := namedOf(rt); nt != nil && nt.Obj().Name() == "EventRule" {
-					s := cal.Name()
-					// DataType / ArrayType constant argument
-					for _, arg := range call.Args {
-						if c, isC := objOf(info, arg).(*types.Const); isC {
-							if nt := namedOf(c.Type()); nt != nil && (nt.Obj().Name() == "DataType" || nt.Obj().Name() == "ArrayType") {
-								s += ":" + c.Name()
+			return e
+		}
+		walk = func(body ast.Node, info *types.Info, env binding, depth int) {
+			ast.Inspect(body, func(nd ast.Node) bool {
+				call, ok := nd.(*ast.CallExpr)
+				if !ok {
+					return true
+				}
+				cal := callee(info, call)
+				if cal == nil {
+					return true
+				}
+				if rn := recvNamed(cal); rn != nil && rn.Obj() == ctxT && cal.Name() == "NotifyNewObject" && len(call.Args) == 1 {
+					if v := constVal(info, resolve(info, env, call.Args[0])); v != nil {
+						notify = append(notify, v.ExactString())
+					} else {
+						notify = append(notify, "?")
+					}
+					if len(ruleCalls) > 0 {
+						notifyBeforeRule = false
+					}
+					return true
+				}
+				if rt := recvType(cal); rt != nil {
+					if nt := namedOf(rt); nt != nil && nt.Obj().Name() == "EventRule" {
+						s := cal.Name()
+						// DataType / ArrayType constant argument
+						for _, arg := range call.Args {
+							if c, isC := objOf(info, resolve(info, env, arg)).(*types.Const); isC {
+								if nt := namedOf(c.Type()); nt != nil && (nt.Obj().Name() == "DataType" || nt.Obj().Name() == "ArrayType") {
+									s += ":" + c.Name()
+								}
 							}
 						}
+						ruleCalls = append(ruleCalls, s)
+						return true
 					}
-					ruleCalls = append(ruleCalls, s)
 				}
-			}
-			return true
-		})
+				if depth < 3 && !cal.Exported() && cal.Pkg() == ctxT.Pkg() {
+					rn := recvNamed(cal)
+					if rn == nil || rn.Obj().Name() == "RulesEventReceiver" {
+						if d := p.FuncDecl(cal); d != nil && d.Body != nil {
+							sub := binding{}
+							sig := cal.Type().(*types.Signature)
+							for i := 0; i < sig.Params().Len() && i < len(call.Args); i++ {
+								if !sig.Variadic() || i < sig.Params().Len()-1 {
+									sub[sig.Params().At(i)] = resolve(info, env, call.Args[i])
+								}
+							}
+							walk(d.Body, info, sub, depth+1)
+						}
+					}
+				}
+				return true
+			})
+		}
+		walk(f.Decl.Body, info, nil, 0)
 		name := "rules.RulesEventReceiver." + ev
 		if cls.method == "" {
 			r.Check("C10.dispatch", name+"|no-validation", f.Decl.Pos(), len(ruleCalls) == 0 && len(notify) == 0, "OnError must not be validated or counted")
